@@ -1,6 +1,7 @@
 import SqlObjVerif.Lemmas.Lex
 import SqlObjVerif.Lemmas.Like
 import SqlObjVerif.Lemmas.LexXStmt
+import SqlObjVerif.Lemmas.LexXMore
 /-!
 # C02 — SQL literals are injection-proof: each value renders as exactly one literal
 
@@ -321,6 +322,27 @@ theorem C02_translated_stmt_skeleton_update (P : Ext) (hrepr : ∀ t, P.reprOf (
         some (Lex.updateToks table (sets.map fun p => (p.1, Lex.valToks d p.2)) idName (Lex.valToks d idv)) :=
   ⟨_, SO_update_run P hrepr d table idName sets idv m hm hid,
     Lex.C02_stmt_skeleton_independent_of_data_update d table sets idName idv ht hi hs hidv⟩
+
+/-- `DecimalConverter` as translated: the text of `value.to_eng_string()` (an opaque token run, like `repr(float)`),
+    unchanged; `hd` = the interface assumption that the method returns the text `t` -/
+theorem C02_translated_DecimalConverter_eq_model (P : Ext) (n : Nat) (t : Lex.Str) (db : Val)
+    (hd : P.cm (decimalObj t) "to_eng_string" [] = .ok (.str t)) :
+    run (world P n) Extracted.DecimalConverter [decimalObj t, db] = .ret (.str t) := decimal_conv P n t db hd
+
+/-- … through the translated `sqlrepr` dispatch (registry entry `Decimal`), = the model's `render` of a number -/
+theorem C02_translated_sqlrepr_decimal_eq_model (P : Ext) (n : Nat) (d : Lex.Dialect) (neg : Bool) (mant : Lex.Str)
+    (exp : Option (Nat × Lex.Str))
+    (hd : P.cm (decimalObj (Lex.renderNum neg mant exp)) "to_eng_string" [] = .ok (.str (Lex.renderNum neg mant exp))) :
+    sqlreprX (world P (n + 2)) (decimalObj (Lex.renderNum neg mant exp)) (.str (dbName d)) =
+      .ret (.str (Lex.render d (.num neg mant exp))) := by
+  simpa [Lex.render, sqlreprX, ret] using sqlrepr_decimal P n _ (.str (dbName d)) hd
+
+/-- `TimedeltaConverter` as translated: `INTERVAL '<days> days <seconds> seconds'` with `%d` of the two ints (the hand
+    model `Lex.Val` has no timedelta kind: the statement is the format itself) -/
+theorem C02_translated_TimedeltaConverter_text (P : Ext) (n : Nat) (days secs : Int) (db : Val) :
+    run (world P n) Extracted.TimedeltaConverter [timedeltaObj days secs, db] =
+      .ret (.str ([73, 78, 84, 69, 82, 86, 65, 76, 32, 39] ++ Lex.renderInt days ++ [32, 100, 97, 121, 115, 32] ++
+        Lex.renderInt secs ++ [32, 115, 101, 99, 111, 110, 100, 115, 39])) := timedelta_conv P n days secs db
 
 /-- a test interface: ASCII upper-casing, no expression classes, `query` returns its argument -/
 def testExt : Ext :=
